@@ -296,7 +296,7 @@ Lemma walk_leaf_fails : forall lit s rest i v pc d next vo value,
 Proof.
   intros. rewrite walk_unfold.
   assert (E : found_of (NLeaf i v) s = ROk None) by (destruct s; reflexivity).
-  rewrite E. simpl. eexists. reflexivity.
+  rewrite E. simpl. destruct (negb (forallb straight_buildable rest)); eexists; reflexivity.
 Qed.
 
 Lemma put_key_keys : forall k v kvs kv', In kv' (put_key k v kvs) -> exists kv, In kv kvs /\ fst kv' = fst kv.
@@ -373,7 +373,8 @@ Proof.
                   exists cont g, build_next lit (s2 :: rest2) value next vo = ROk cont /\
                     grow lit (s2 :: rest2) cont cpc (N.succ next) vo value = ROk g /\
                     d' = put_obj o (null_put cur s (fst (fst g))) d /\ pc' = snd (fst g)).
-        { destruct cur as [i x|i kvs|i els|i els]; try discriminate;
+        { destruct (negb (forallb straight_buildable (s2 :: rest2))); [discriminate|].
+          destruct cur as [i x|i kvs|i els|i els]; try discriminate;
             (destruct (build_next lit (s2 :: rest2) value next vo) as [cont|e] eqn:Eb; [|discriminate]);
             (destruct (grow lit (s2 :: rest2) cont cpc (N.succ next) vo value) as [g|e] eqn:Eg; [|discriminate]);
             simpl in H; inversion H; subst; eexists; (split; [reflexivity|]); (split; [reflexivity|]);
@@ -400,6 +401,7 @@ Proof.
               destruct (wrap_type_oid _ _ _ _ _ Hw) as [E|E]; rewrite E; lia.
            ++ destruct (build_next_cont_shape _ _ _ _ _ _ _ Eb) as [-> | ->]; simpl; auto. intros kv [].
     + rewrite walk_unfold, Ef in H. unfold rbind in H.
+      destruct (negb (forallb straight_buildable rest)); [discriminate|].
       destruct (grow lit (s :: rest) cur pc next vo value) as [[[g0 pc0] n0]|e] eqn:Eg; [|discriminate].
       destruct (coid cur) as [o|] eqn:Ec; [|discriminate]. simpl in H. inversion H; subst.
       pose proof (found_agrees _ _ _ Ef) as Hsc. simpl in Hsc.
